@@ -3,6 +3,7 @@ package mon
 import (
 	"fmt"
 	"math/rand"
+	"time"
 
 	ipfslog "berty.tech/go-ipfs-log"
 	"berty.tech/go-ipfs-log/iface"
@@ -123,9 +124,12 @@ func c10Case(run *evid.Run, i int, j *Journal) {
 						}
 					}
 					var pan any
+					returned, dump := true, ""
 					guarded := func() {
-						defer func() { pan = recover() }()
-						load()
+						returned, dump = callHang(x.W.Store, time.Second, func() {
+							defer func() { pan = recover() }()
+							load()
+						})
 					}
 					od := "ungated"
 					if pol == "ungated" {
@@ -147,6 +151,16 @@ func c10Case(run *evid.Run, i int, j *Journal) {
 					}
 					d := det("loader", loader, "n_class", nclass, "policy", pol, "start_is_heads", model.EqualAsSets(start, src.Heads))
 					wit := func() map[string]any { m := histSample(h); m["load"] = desc; return m }
+					if !returned {
+						if dump == "" {
+							run.Inconclusive("limited load did not return within the wall-clock cap: " + desc)
+						} else {
+							w := wit()
+							w["goroutine_dump"] = clipStr(dump, 8000)
+							run.Violate("C10/load-hung", d, w, "limited load never returned although the store is quiescent (%s)", desc)
+						}
+						continue
+					}
 					if pan != nil {
 						run.Violate("C10/panic", d, wit(), "loader panicked: %v (%s)", pan, desc)
 						continue
